@@ -83,45 +83,68 @@ def build_harness(profile='release'):
 def _run_shard(args):
     exe, extra, lines, timeout = args
     if not lines:
-        return ''
-    p = subprocess.run([exe] + extra, input='\n'.join(lines) + '\n', capture_output=True, text=True,
-                       timeout=timeout, env=ENV)
-    return p.stdout, p.returncode
+        return '', 0
+    try:
+        p = subprocess.run([exe] + extra, input='\n'.join(lines) + '\n', capture_output=True, text=True,
+                           timeout=timeout, env=ENV)
+        return p.stdout, p.returncode
+    except subprocess.TimeoutExpired:
+        return '', -99
 
 
-def run_lines(exe, lines, extra=(), timeout=1800, shards=NPROC):
+def _run_one(exe, extra, line, timeout):
+    try:
+        p = subprocess.run([exe] + list(extra), input=line + '\n', capture_output=True, text=True,
+                           timeout=timeout, env=ENV)
+        o = p.stdout.strip().split(' ', 1)
+        if p.returncode == 0 and len(o) == 2:
+            return o[1]
+        return '(abort %d)' % p.returncode
+    except subprocess.TimeoutExpired:
+        return '(timeout)'
+
+
+def run_lines(exe, lines, extra=(), timeout=300, shards=NPROC, case_timeout=10):
     """lines: list of '<id> <term>'.  Returns dict id -> observation text.  A shard whose process
-    dies (abort, stack overflow) is re-run case by case so that the dying case is identified."""
+    dies (abort, stack overflow) or exceeds [timeout] is re-run in halves, down to single cases, so
+    that the dying / hanging case is identified and reported as (abort n) / (timeout)."""
     shards = max(1, min(shards, len(lines) // 50 + 1))
     parts = [lines[i::shards] for i in range(shards)]
     out = {}
     with ThreadPoolExecutor(max_workers=shards) as ex:
         results = list(ex.map(_run_shard, [(exe, list(extra), p, timeout) for p in parts]))
-    for part, res in zip(parts, results):
-        if not part:
-            continue
-        stdout, rc = res
+
+    def absorb(part, stdout):
         got = {}
         for l in stdout.splitlines():
             if ' ' in l:
                 i, o = l.split(' ', 1)
                 got[i] = o
+        return got
+
+    def solve(part, budget):
+        """run [part]; on failure split"""
+        if not part:
+            return {}
+        if len(part) == 1:
+            return {part[0].split(' ', 1)[0]: _run_one(exe, extra, part[0], case_timeout)}
+        stdout, rc = _run_shard((exe, list(extra), part, case_timeout + 0.01 * len(part)))
+        got = absorb(part, stdout)
+        if rc == 0 and len(got) == len(part):
+            return got
+        mid = len(part) // 2
+        a = solve(part[:mid], max(case_timeout, budget / 2))
+        a.update(solve(part[mid:], max(case_timeout, budget / 2)))
+        return a
+
+    for part, (stdout, rc) in zip(parts, results):
+        if not part:
+            continue
+        got = absorb(part, stdout)
         if rc != 0 or len(got) != len(part):
-            # find the killers one by one
-            for l in part:
-                i = l.split(' ', 1)[0]
-                if i in got and rc == 0:
-                    continue
-                try:
-                    p = subprocess.run([exe] + list(extra), input=l + '\n', capture_output=True, text=True,
-                                       timeout=120, env=ENV)
-                    o = p.stdout.strip().split(' ', 1)
-                    if p.returncode == 0 and len(o) == 2:
-                        got[i] = o[1]
-                    else:
-                        got[i] = '(abort %d)' % p.returncode
-                except subprocess.TimeoutExpired:
-                    got[i] = '(timeout)'
+            mid = len(part) // 2
+            got = solve(part[:mid], 60)
+            got.update(solve(part[mid:], 60))
         out.update(got)
     return out
 
